@@ -33,7 +33,7 @@ type half struct {
 	breakAt  int64
 	breakErr error
 	onBreak  func()
-	total  int64 // bytes ever written
+	total    int64 // bytes ever written
 	// stalled: writers block (a full socket buffer whose reader has stopped
 	// reading) until the stall is lifted, the half breaks or the writer closes
 	stalled bool
@@ -56,7 +56,9 @@ type Conn struct {
 	rdeadline  time.Time
 	rtimer     *time.Timer
 	wdeadline  time.Time
-	writeErr   error // injected: next writes fail
+	wset       time.Time // when wdeadline was set
+	wscale     float64   // > 0: a stalled Write honours the write deadline, shortened by this factor
+	writeErr   error     // injected: next writes fail
 	CloseCount int
 
 	// OnWrite, if set, observes every Write (before it becomes readable by the peer).
@@ -131,7 +133,19 @@ func (c *Conn) Write(p []byte) (int, error) {
 	}
 	h.mu.Lock()
 	for h.stalled && h.broken == nil && !h.closed {
+		dl, ok := c.scaledWriteDeadline()
+		if !ok {
+			h.cond.Wait()
+			continue
+		}
+		rem := time.Until(dl)
+		if rem <= 0 {
+			h.mu.Unlock()
+			return 0, os.ErrDeadlineExceeded
+		}
+		tm := time.AfterFunc(rem, func() { h.mu.Lock(); h.cond.Broadcast(); h.mu.Unlock() })
 		h.cond.Wait()
+		tm.Stop()
 	}
 	if h.closed {
 		h.mu.Unlock()
@@ -310,8 +324,29 @@ func (c *Conn) SetReadDeadline(t time.Time) error {
 func (c *Conn) SetWriteDeadline(t time.Time) error {
 	c.mu.Lock()
 	c.wdeadline = t
+	c.wset = time.Now()
 	c.mu.Unlock()
 	return nil
+}
+
+// ScaleWriteDeadlines makes Writes of this endpoint that are blocked by
+// StallPeerWrites fail with os.ErrDeadlineExceeded once the write deadline,
+// shortened by factor (30 s become 30 ms with factor 1000), has passed.
+// Without it a stalled Write ignores deadlines.
+func (c *Conn) ScaleWriteDeadlines(factor float64) {
+	c.mu.Lock()
+	c.wscale = factor
+	c.mu.Unlock()
+}
+
+func (c *Conn) scaledWriteDeadline() (time.Time, bool) {
+	c.mu.Lock()
+	defer c.mu.Unlock()
+	if c.wscale <= 0 || c.wdeadline.IsZero() {
+		return time.Time{}, false
+	}
+	d := c.wdeadline.Sub(c.wset)
+	return c.wset.Add(time.Duration(float64(d) / c.wscale)), true
 }
 
 // ReadAvailable reads whatever arrives until the stream has been quiet for
